@@ -10,7 +10,8 @@ MANIFEST = dict(
          "edit x RollingInPlace/RollingRecreate x status checks x hook-owned Updated condition) and prints each plan as a scenario; "
          "replayed round by round on the real composite controller with real ControllerRevisions; TLC validates the trace against "
          "spec/TraceSync.tla (C07_OneMove, C07_HookOrder, C07_Gate, C07_OldStay, C07_NonRevNow, C07_Cond; C08_Done, "
-         "C08_NoNeedlessWait).",
+         "C08_NoNeedlessWait)."
+         " Plans vary the health policy (observedGeneration absent / 0 / not a number), whether the child SET depends on the revision, children pre-edited by somebody else (last-applied-only updates), generateSelector, status checks with and without reason, the hook's own Updated condition (none / Unknown / False); C07_LatestAsIs demands that one per-revision hook call is about the parent as it is.",
     ref="DESIGN.md §8 C07",
     tech="TLA+ model (TLC invariants) + TLC-enumerated rollout plans replayed on real code + TLC trace validation")
 
